@@ -101,9 +101,11 @@ func vfObserve(v map[string]any) (res map[string]any) {
 	sys := vfMap(v, "sys")
 	st := vfObsState{fwd: vfBool(sys, "fwd", true), auto: vfBool(sys, "auto", true), fwdErr: vfBool(v, "fwderr", false), autoEr: vfBool(v, "autoerr", false)}
 	reg := prometheus.NewPedanticRegistry()
-	_ = NewMetrics(metricslite.NewPrometheus(reg), "vf", time.Time{}, st, cfg.Interfaces)
+	mm := NewMetrics(metricslite.NewPrometheus(reg), "vf", time.Time{}, st, cfg.Interfaces)
 	ll := log.New(io.Discard, "", 0)
 	h := crhttp.NewHandler(ll, st, *cfg, promhttp.HandlerFor(reg, promhttp.HandlerOpts{}))
+	// the wiring of cmd/corerad/main.go: the same configuration value then goes to BuildTasks (the tasks are not run)
+	_ = NewServer(NewContext(ll, mm, st)).BuildTasks(*cfg, h)
 
 	if vfStr(v, "lifecycle", "up") == "up" {
 		var ips []system.IP
